@@ -242,7 +242,31 @@ def r2_mask(cx):
     c04.r4_mask(cx, rule="R2")
 
 
+def r6_container_readers_are_file_views(cx):
+    """set_location writes at `pack offset in the manifest + global offset of the manifest reader`: the readers a
+    container hands out for its packs must be views of the file (cut with in_memory = false), never copies -- a copy
+    restarts its global offset at 0"""
+    F = cx.F
+    n = 0
+    for loc in (dict(impl_self="reader::container_pack::ContainerPack", item="new"), dict(name="reader::jubako::open_as_container_pack")):
+        f = F.one(closure=False, **loc)
+        b = F.body(f)
+        cuts = b.calls(r"bases::reader::Reader::cut$")
+        if not cuts:
+            raise AnchorLost("%s: no Reader::cut site" % f["name"])
+        for k, (i, t) in enumerate(cuts):
+            n += 1
+            v = op_const_deep(b, t["args"][3])
+            cx.ob("R6", "R6/%s/cut#%d-is-a-view" % (".".join(f["name"].split("::")[-2:]), k), v is False, f,
+                  "Reader::cut(.., in_memory = false): the pack reader stays a view of the container file (constant %r)" % (v,), ln=t.get("ln"))
+    g = F.one(name="tools::set_location")
+    gb = F.body(g)
+    go = gb.calls(r"Reader::global_offset$")
+    cx.ob("R6", "R6/set_location/uses-global-offset", len(go) >= 1, g, "set_location locates the manifest in the file through the global offset of its reader")
+
+
 RULES = [
+    ("R6", r6_container_readers_are_file_views, 3),
     ("R1", r1_header_offset, 4),
     ("R2", r2_mask, 3),
     ("R3", r3_confined, 7),
